@@ -65,6 +65,54 @@ fn is_skipped_query_string(name: &str) -> bool {
     name == "X-Amz-Signature"
 }
 
+/// Appends `<CanonicalHeaders>\n` and `<SignedHeaders>\n`.
+///
+/// + header values are trimmed and sequential spaces are converted to a single space
+/// + the values of a header sent on several lines are joined with `,`
+///
+/// `signed_headers` must be ordered by name.
+fn push_canonical_headers(ans: &mut String, signed_headers: &OrderedHeaders<'_>) {
+    let mut last = None;
+    for &(name, value) in signed_headers.as_ref() {
+        if is_skipped_header(name) {
+            continue;
+        }
+        if last == Some(name) {
+            // replace the line break of the previous value
+            ans.pop();
+            ans.push(',');
+        } else {
+            ans.push_str(name);
+            ans.push(':');
+        }
+        last = Some(name);
+
+        let mut prev_is_space = false;
+        for ch in value.trim().chars() {
+            if ch == ' ' && prev_is_space {
+                continue;
+            }
+            prev_is_space = ch == ' ';
+            ans.push(ch);
+        }
+        ans.push('\n');
+    }
+    ans.push('\n');
+
+    let mut last = None;
+    for &(name, _) in signed_headers.as_ref() {
+        if is_skipped_header(name) || last == Some(name) {
+            continue;
+        }
+        if last.is_some() {
+            ans.push(';');
+        }
+        last = Some(name);
+        ans.push_str(name);
+    }
+    ans.push('\n');
+}
+
 /// sha256 hash of an empty string
 const EMPTY_STRING_SHA256_HASH: &str = "e3b0c44298fc1c149afbf4c8996fb92427ae41e4649b934ca495991b7852b855";
 
@@ -137,37 +185,11 @@ pub fn create_canonical_request(
 
     {
         // <CanonicalHeaders>\n
+        // <SignedHeaders>\n
 
         // FIXME: check HOST, Content-Type, x-amz-security-token, x-amz-content-sha256
 
-        for &(name, value) in signed_headers.as_ref() {
-            if is_skipped_header(name) {
-                continue;
-            }
-            ans.push_str(name);
-            ans.push(':');
-            ans.push_str(value.trim());
-            ans.push('\n');
-        }
-        ans.push('\n');
-    }
-
-    {
-        // <SignedHeaders>\n
-        let mut first_flag = true;
-        for &(name, _) in signed_headers.as_ref() {
-            if is_skipped_header(name) {
-                continue;
-            }
-            if first_flag {
-                first_flag = false;
-            } else {
-                ans.push(';');
-            }
-            ans.push_str(name);
-        }
-
-        ans.push('\n');
+        push_canonical_headers(&mut ans, signed_headers);
     }
 
     {
@@ -351,34 +373,8 @@ pub fn create_presigned_canonical_request(
     }
     {
         // <CanonicalHeaders>\n
-
-        for &(name, value) in signed_headers.as_ref() {
-            if is_skipped_header(name) {
-                continue;
-            }
-            ans.push_str(name);
-            ans.push(':');
-            ans.push_str(value.trim());
-            ans.push('\n');
-        }
-        ans.push('\n');
-    }
-    {
         // <SignedHeaders>\n
-        let mut first_flag = true;
-        for &(name, _) in signed_headers.as_ref() {
-            if is_skipped_header(name) {
-                continue;
-            }
-            if first_flag {
-                first_flag = false;
-            } else {
-                ans.push(';');
-            }
-            ans.push_str(name);
-        }
-
-        ans.push('\n');
+        push_canonical_headers(&mut ans, signed_headers);
     }
     {
         // <Payload>
